@@ -68,16 +68,18 @@ def run(rep, tier):
     rep.rule('R6', 'SymbolTable::lookup never returns null: every return is the found element under an it != end() test, otherwise it throws', floor=1)
     lk = idx.func('xcmp::SymbolTable::lookup')
     rets = [r for r in walk(lk.body) if r['kind'] == 'ReturnStmt']
-    ok = bool(rets)
-    for r in rets:
-        if not any(callee_of(c)[1] == 'get' for c in cast.calls_in(r)):
-            ok = False
-    # the function must end in a throw (no fall-through return of null)
+    verdicts = [_return_nonnull(lk, r) for r in rets]
+    # a non-void function that does not end in a return ends in a throw (anything else does not compile without a warning-as-error)
     last = children(lk.body)[-1]
     ends_in_throw = any(x['kind'] == 'CXXThrowExpr' for x in walk(last))
-    guarded = all(_under_found_test(lk, r) for r in rets)
-    rep.add('R6', 'SymbolTable::lookup', ok and ends_in_throw and guarded, pos(lk.node) + ' ' + lk.qname,
-            '%d returns of found elements, guarded by != end(): %s, ends in throw: %s' % (len(rets), guarded, ends_in_throw))
+    detail = '%d returns: %s; ends in throw: %s' % (len(rets), ', '.join({True: 'found element under a found-test', False: 'may be null',
+                                                                         None: 'not recognised'}[v] for v in verdicts), ends_in_throw)
+    if rets and any(v is False for v in verdicts):
+        rep.add('R6', 'SymbolTable::lookup', False, pos(lk.node) + ' ' + lk.qname, detail)
+    elif rets and all(v is True for v in verdicts) and (ends_in_throw or last['kind'] == 'ReturnStmt'):
+        rep.add('R6', 'SymbolTable::lookup', True, pos(lk.node) + ' ' + lk.qname, detail)
+    else:
+        rep.undecided('R6', 'SymbolTable::lookup', 'the way lookup produces its result is not one of the recognised idioms (%s)' % detail, pos(lk.node))
     # R7 checked downcasts
     rep.rule('R7', 'every dynamic_cast whose result is dereferenced is null-tested or covered by the recorded (function, type) guard', floor=10)
     robust.rule_downcasts(rep, 'R7', idx, 'xcmp::', DOWNCAST_GUARDS)
@@ -88,6 +90,12 @@ def run(rep, tier):
     for c in range(256):
         rep.add('R8', 'byte=0x%02X' % c, c not in probs, pos(rt.node) + ' xcmp::Lexer::readToken', probs.get(c, 'END_OF_FILE or a diagnostic is reached'),
                 nontrivial=(chr(c) in '|"\'#:<>~' or chr(c).isalnum()))
+    # escape sequences: quote, backslash, any byte (the decoder of escapes sees every byte, NUL and bytes >= 0x80 included)
+    esc = [(q, 0x5C, b) for q in (0x27, 0x22) for b in range(256)]
+    probs = dict(robust.lexer_terminates(idx, 'xcmp', esc))
+    for pr in esc:
+        rep.add('R8', 'bytes=' + ' '.join('%02X' % b for b in pr), pr not in probs, pos(rt.node) + ' xcmp::Lexer::readToken',
+                probs.get(pr, 'END_OF_FILE or a diagnostic is reached'), nontrivial=False)
     rule_recursion(rep)
     rule_peephole_bounds(rep, idx)
     rule_memory_info(rep, idx)
@@ -294,12 +302,50 @@ def _nonzero_guard(f, div):
     return None
 
 
-def _under_found_test(f, ret):
+def _if_parts(n):
+    ch = children(n)
+    i = 1 if (n.get('hasInit') or n.get('hasVar')) else 0
+    return ch[i], ch[i + 1], (ch[i + 2] if len(ch) > i + 2 else None), (ch[0] if n.get('hasVar') else None)
+
+
+def _is_null_literal(e):
+    e = cast.strip(e)
+    return e['kind'] in ('CXXNullPtrLiteralExpr', 'GNUNullExpr') or (e['kind'] == 'IntegerLiteral' and e.get('value') == '0')
+
+
+def _return_nonnull(f, ret):
+    """True: the returned pointer is a found element (never null); False: it may be null; None: idiom not recognised."""
     def contains(n):
         return any(x is ret for x in walk(n))
-    for n in walk(f.body):
-        if n['kind'] == 'IfStmt' and contains(children(n)[1]):
-            cond = children(n)[0]
+    ch = children(ret)
+    if not ch:
+        return None
+    e = cast.strip(ch[0])
+    if _is_null_literal(e):
+        return False
+    if e['kind'] == 'ConditionalOperator' and any(_is_null_literal(a) for a in children(e)[1:]):
+        return False
+    enclosing = [n for n in walk(f.body) if n['kind'] == 'IfStmt' and contains(_if_parts(n)[1])]
+    # (a) the element of an iterator that was compared with end()
+    if any(callee_of(c)[1] == 'get' for c in cast.calls_in(ret)):
+        for n in enclosing:
+            cond = _if_parts(n)[0]
             if any(callee_of(c)[1] == 'end' for c in cast.calls_in(cond)):
                 return True
-    return False
+        return None
+    # (b) a pointer variable the enclosing if has just tested: `if (auto s = find(..)) return s;`, `if (s) return s;`, `if (s != nullptr)`
+    if e['kind'] == 'DeclRefExpr':
+        vid = (e.get('referencedDecl') or {}).get('id')
+        for n in enclosing:
+            cond, _, _, decl = _if_parts(n)
+            if decl is not None and any(d.get('id') == vid for d in children(decl) if d['kind'] == 'VarDecl'):
+                return True
+            c = cast.strip(cond)
+            if c['kind'] == 'DeclRefExpr' and (c.get('referencedDecl') or {}).get('id') == vid:
+                return True
+            if c['kind'] == 'BinaryOperator' and c.get('opcode') == '!=':
+                a, b = [cast.strip(x) for x in children(c)]
+                for x, y in ((a, b), (b, a)):
+                    if x['kind'] == 'DeclRefExpr' and (x.get('referencedDecl') or {}).get('id') == vid and _is_null_literal(y):
+                        return True
+    return None
